@@ -358,3 +358,15 @@ func SelfSignedCert(k *CertKey, name string) []byte {
 	}
 	return der
 }
+
+// SelfSignedCertWithSKI is a self-signed certificate of k's key whose subject key id claims ski.
+func SelfSignedCertWithSKI(k *CertKey, ski []byte) []byte {
+	tmpl := &x509.Certificate{AuthorityKeyId: ski, SubjectKeyId: ski, ExtKeyUsage: []x509.ExtKeyUsage{x509.ExtKeyUsageClientAuth},
+		DNSNames: []string{nodeenrollment.CommonDnsName}, KeyUsage: x509.KeyUsageDigitalSignature | x509.KeyUsageCertSign, SerialNumber: big.NewInt(12),
+		NotBefore: time.Now().Add(-24 * time.Hour), NotAfter: time.Now().Add(24 * time.Hour * 3650), BasicConstraintsValid: true, IsCA: true}
+	der, err := x509.CreateCertificate(DetRand("selfsigned-ski:"+k.Name), tmpl, tmpl, k.Pub, k.Priv)
+	if err != nil {
+		panic(err)
+	}
+	return der
+}
